@@ -1442,12 +1442,13 @@ func (d *Data) storeAndUpdate(ctx *datastore.VersionedCtx, keyStr string, newDat
 	mdb, found := d.getMemDBbyVersion(ctx.VersionID())
 	if found {
 		mdb.mu.Lock()
-		mdb.data[bodyid] = newData
-
-		// cache updated field and field timestamps
-		for field := range origData {
+		// cache updated field and field timestamps: the record being replaced is the one in memory
+		// (origData has already lost the fields this update nulls).
+		for field := range mdb.data[bodyid] {
 			mdb.fields[field]--
 		}
+		mdb.data[bodyid] = newData
+
 		for field := range newData {
 			mdb.fields[field]++
 			if strings.HasSuffix(field, "_time") {
@@ -2278,13 +2279,11 @@ func (d *Data) ServeHTTP(uuid dvid.UUID, ctx *datastore.VersionedCtx, w http.Res
 		if returnCounts {
 			result = fieldCount
 		} else {
-			fields := make([]string, len(fieldCount))
-			i := 0
+			fields := make([]string, 0, len(fieldCount))
 			for field, count := range fieldCount {
 				if count > 0 {
-					fields[i] = field
+					fields = append(fields, field)
 				}
-				i++
 			}
 			result = fields
 		}
